@@ -57,7 +57,9 @@ NoPanic     == OK
 QMember(g) == g.uuid \in After.groups
 QueryUUIDs == {T.qgroups[i].uuid : i \in DOMAIN T.qgroups}
 \* whenever the engine hands the session back / after an effective modifier
-Applies == OK /\ (T.ev = "sprint" \/ T.modified)
+\* (a modifier that changes nothing re-evaluates nothing, so a contact handed in with stale groups stays as it was; but
+\* what counts is whether the contact CHANGED, not whether the modifier says so)
+Applies == OK /\ (T.ev = "sprint" \/ T.modified \/ Before # After)
 \* (matches: in the merged environment, matches_base: in the session's own - the engine uses the one when an action
 \* changes the contact and the other when a sprint starts, and the statement does not choose; they differ only for
 \* calendar-day conditions on contacts with a timezone of their own)
